@@ -3,8 +3,8 @@
 import base64
 import random
 
-from vf import noise_h
-from vf.props import c01, noise_common
+from vf import connsim, noise_h
+from vf.props import c01, conn_common, noise_common
 from vf.tlc import parse_tagged
 from vf import simloop
 
@@ -60,7 +60,20 @@ def run(ctx):
         loop.shutdown()
 
 
+    # connection level: an encrypted session whose device announces / answers with another name (in the server hello,
+    # in the encrypted HelloResponse, or in both) must end closed with the bad-name error and deliver nothing
+    def build(ctx, rng):
+        fam = [(c, s) for c, s in connsim.c06_family(True, rng) if c["noise"] and c["exp"] == "dev"]
+        return {"noise_names": fam}
+
+    conn_common.dedicated(ctx, "c04conn", [], build)
+    ctx.rule += "; connection level: name announced in the server hello x name in the encrypted HelloResponse x expected name, on the real APIConnection, validated by TLC"
+
+
 def replay(ctx, case):
+    if case.get("kind") == "conn-trace":
+        conn_common.replay_case(ctx, case)
+        return
     if case["kind"] in ("edge", "trace"):
         noise_common.replay_case(ctx, case)
     elif case["kind"] == "key":
